@@ -58,6 +58,8 @@ func DetachClearSign(w io.Writer, signer *openpgp.Entity, message io.Reader, con
 		if err == nil {
 			_, err = w.Write(tail)
 		}
+		// if reading stopped early, fail the writer instead of leaving it blocked
+		_ = readPipe.CloseWithError(err)
 		done <- err
 	}()
 	err := ClearSign(writePipe, signer, message, config)
@@ -99,7 +101,10 @@ func MergeClearSign(w io.Writer, sig []byte, message io.Reader) error {
 	readPipe, writePipe := io.Pipe()
 	done := make(chan error)
 	go func() {
-		done <- headClearSign(readPipe, out)
+		err := headClearSign(readPipe, out)
+		// if reading stopped early, fail the writer instead of leaving it blocked
+		_ = readPipe.CloseWithError(err)
+		done <- err
 	}()
 
 	err = ClearSign(writePipe, signer, message, config)
